@@ -59,7 +59,7 @@ Proof.
     { destruct k; simpl; unfold gd, group_dst in Hempty; now rewrite Hempty. }
     rewrite Ec. split; intros D b1 b2 H; discriminate.
   - rewrite gin_dst, Hempty. intros D l f H. unfold listing in H. simpl in H. destruct (is_dir_oid D); discriminate.
-  - unfold ix_sound. destruct k; simpl; auto. intros o H. discriminate.
+  - unfold ix_sound. destruct k; simpl; auto. right. intros o H. discriminate.
   - right. intros D l f HD Hd HT Hf. rewrite gin_req in *.
     destruct (Hreq D HD Hd) as [-> [H1 H2]].
     assert (El : l = [xf1; xf2]).
@@ -70,6 +70,7 @@ Proof.
       rewrite gin_src in L. destruct (Hsrc xd1 b L eq_refl) as [_ ->].
       rewrite gin_parse in P. vm_compute in P. now inversion P. }
     subst l. destruct Hf as [<-|[<-|[]]]; auto.
+  - intros o Ho. rewrite gin_trunc, gin_parse. reflexivity.
 Qed.
 
 Lemma x_indep_push : indep RPush (collect x_map x_idx).
@@ -199,8 +200,9 @@ Proof.
     - intros b l f Hp. discriminate.
     - split; intros D b1 b2 L; discriminate.
     - intros D l f Hl. unfold listing in Hl. simpl in Hl. destruct (is_dir_oid D); discriminate.
-    - intros o Ho. discriminate.
-    - right. intros D l f HD Hd. simpl in HD. destruct HD as [<-|[<-|[]]]; vm_compute in Hd; discriminate. }
+    - right. intros o Ho. discriminate.
+    - right. intros D l f HD Hd. simpl in HD. destruct HD as [<-|[<-|[]]]; vm_compute in Hd; discriminate.
+    - intros o Ho. reflexivity. }
   assert (Hp : forall k o c, In (k, o) (entries y_map y_idx) -> cache_of y_map k = Some c ->
                              has (sget y_w c) o = true).
   { intros k o c Hin Hc. vm_compute in Hin.
@@ -209,3 +211,96 @@ Proof.
   pose proof (H y_env y_map y_idx y_w _ Hn eq_refl eq_refl Hi Hw (fun _ _ => eq_refl) Hp 20 y_fB Hd) as F.
   vm_compute in F. discriminate.
 Qed.
+
+(* ====================================================================================== *)
+(* non-vacuity of fetch_exact_seq / checkout_spec_seq: the two remotes of the system above, after
+   the complete push, fetched into ONE empty cache (30) - two groups, one destination *)
+Definition x_fmap1 : smap :=
+  [([], {| si_data := None; si_cache := Some 30; si_remote := Some 20 |});
+   ([[100]; [115]], {| si_data := None; si_cache := None; si_remote := Some 21 |})].
+Definition x_w3 : stores :=
+  [(20, [(xd1, [1]); (xf1, [11]); (xf2, [12])]); (21, [(xf2, [12])])].
+
+Example x_remotes_after_push :
+  map (fun s => map (fun o => lookup o (sget (p_w x_out2) s)) [xd1; xf1; xf2]) [20; 21] =
+  map (fun s => map (fun o => lookup o (sget x_w3 s)) [xd1; xf1; xf2]) [20; 21] /\
+  map (fun s => length (contents (sget (p_w x_out2) s))) [20; 21] = [3%nat; 1%nat].
+Proof. vm_compute. split; reflexivity. Qed.
+
+Example x_collect_fetch1 :
+  collect x_fmap1 x_idx =
+  [ {| g_data := 20; g_cache := Some 30; g_req := [xd1; xf1; xf2; xf1] |};
+    {| g_data := 21; g_cache := Some 30; g_req := [xf2] |} ].
+Proof. reflexivity. Qed.
+
+Lemma x3_lookup s D b : lookup D (sget x_w3 s) = Some b ->
+  (D = xf1 /\ b = [11]) \/ (D = xf2 /\ b = [12]) \/ (D = xd1 /\ b = [1]).
+Proof.
+  unfold x_w3. cbn [sget]. destruct (N.eqb 20 s).
+  - cbn [lookup].
+    destruct (list_N_eqb D xd1) eqn:E3; [apply eqb_eq in E3; intros H; inversion H; auto|].
+    destruct (list_N_eqb D xf1) eqn:E1; [apply eqb_eq in E1; intros H; inversion H; auto|].
+    destruct (list_N_eqb D xf2) eqn:E2; [apply eqb_eq in E2; intros H; inversion H; auto|].
+    discriminate.
+  - destruct (N.eqb 21 s); [|discriminate]. cbn [lookup].
+    destruct (list_N_eqb D xf2) eqn:E2; [apply eqb_eq in E2; intros H; inversion H; auto|].
+    discriminate.
+Qed.
+
+Example x_fetch_seq_hyps :
+  NoDup (map fst x_fmap1) /\
+  ord_ok (e_bord (x_env nofail)) /\ ord_ok (e_dord (x_env nofail)) /\
+  (forall b l f, x_parse b = Some l -> In f l -> is_dir_oid f = false) /\
+  x_parse [] = None /\
+  (forall s1 s2 D b1 b2, lookup D (sget x_w3 s1) = Some b1 -> lookup D (sget x_w3 s2) = Some b2 ->
+                         x_parse b1 = x_parse b2) /\
+  seqok RFetch (collect x_fmap1 x_idx) /\ ~ indep RFetch (collect x_fmap1 x_idx) /\
+  (forall g, In g (collect x_fmap1 x_idx) -> sget x_w3 (gc g) = []) /\
+  (forall g, In g (collect x_fmap1 x_idx) -> req_closed (x_env nofail) x_w3 g) /\
+  (forall g o, In g (collect x_fmap1 x_idx) -> In o (g_req g) -> has (sget x_w3 (g_data g)) o = true) /\
+  (forall g D b, In g (collect x_fmap1 x_idx) -> is_dir_oid D = true ->
+                 lookup D (sget x_w3 (g_data g)) = Some b -> x_parse b <> None) /\
+  (forall g k o, In g (collect x_fmap1 x_idx) -> In (k, o) (entries x_fmap1 x_idx) ->
+                 remote_of x_fmap1 k = Some (g_data g) -> cache_of x_fmap1 k = g_cache g).
+Proof.
+  split; [simpl; repeat constructor; simpl; intuition discriminate|].
+  split; [intros l o; simpl; tauto|]. split; [intros l o; simpl; tauto|].
+  split; [exact x_flat|]. split; [reflexivity|].
+  split.
+  { intros s1 s2 D b1 b2 L1 L2.
+    destruct (x3_lookup _ _ _ L1) as [[-> ->]|[[-> ->]|[-> ->]]];
+      destruct (x3_lookup _ _ _ L2) as [[E ->]|[[E ->]|[E ->]]]; try reflexivity; discriminate. }
+  rewrite x_collect_fetch1.
+  split.
+  { split.
+    - intros g [<-|[<-|[]]]; discriminate.
+    - intros g g' [<-|[<-|[]]] [<-|[<-|[]]]; vm_compute; discriminate. }
+  split.
+  { intros [_ [N _]]. simpl in N. inversion N as [|? ? Hn _]. apply Hn. left. reflexivity. }
+  split; [intros g [<-|[<-|[]]]; reflexivity|].
+  split.
+  { intros g Hg D s b l f HD Hd L P Hf.
+    assert (D = xd1 /\ l = [xf1; xf2]) as [-> ->].
+    { destruct (x3_lookup _ _ _ L) as [[-> ->]|[[-> ->]|[-> ->]]]; try (vm_compute in Hd; discriminate).
+      vm_compute in P. inversion P. auto. }
+    destruct Hg as [<-|[<-|[]]]; simpl in HD.
+    - destruct Hf as [<-|[<-|[]]]; simpl; auto.
+    - destruct HD as [HD|[]]. discriminate. }
+  split.
+  { intros g o Hg Ho. destruct Hg as [<-|[<-|[]]]; simpl in Ho;
+      repeat (destruct Ho as [<-|Ho]; [reflexivity|]); destruct Ho. }
+  split.
+  { intros g D b Hg Hd L.
+    destruct (x3_lookup _ _ _ L) as [[-> ->]|[[-> ->]|[-> ->]]]; try (vm_compute in Hd; discriminate). }
+  intros g k o Hg Hin Hr. vm_compute in Hin.
+  destruct Hin as [E|[E|[E|[E|[]]]]]; inversion E; subst k o;
+    destruct Hg as [<-|[<-|[]]]; vm_compute in Hr; try discriminate; reflexivity.
+Qed.
+
+Example x_run_seq :
+  let out := run_round (x_env nofail) RFetch x_fmap1 x_idx x_w3 in
+  (p_err out, p_moved out, p_failed out) = (None, 3, 0) /\
+  forallb (has (sget (p_w out) 30)) [xd1; xf1; xf2] = true /\
+  checkout_view x_fmap1 x_idx (p_w out) =
+    [([[100]; [97]], Some [11]); ([[100]; [115]; [98]], Some [12]); ([[102]], Some [11])].
+Proof. vm_compute. repeat split; reflexivity. Qed.
